@@ -109,6 +109,7 @@ type fnAnalysis struct {
 	eff          *effect
 	fset         *token.FileSet
 	resultScalar []bool
+	helpers      *helperTable
 }
 
 func isScalarType(t ast.Expr) bool {
@@ -137,6 +138,121 @@ func isNamedScalar(id *ast.Ident) bool {
 		}
 	}
 	return false
+}
+
+// ---- unexported helper functions of the package under analysis ----
+// A reader may delegate to an unexported helper of its own package (extracted during a refactoring). Such a helper
+// is not listed as a reader; it is summarised per parameter - analysed once with only that parameter (or the
+// receiver, index -1) caller-visible: does it write through it, may its result alias it, does it pass it to a call
+// of unknown effect - and the summary is applied at each call site to the arguments that are caller-visible there.
+type helperSummary struct {
+	writes  map[int]bool
+	alias   map[int]bool
+	unknown map[int][]string
+}
+
+type helperTable struct {
+	fset    *token.FileSet
+	pkg     string
+	decls   map[string]*ast.FuncDecl // unexported functions and methods by bare name (ambiguous names are left out)
+	readers map[string]bool
+	memo    map[string]*helperSummary
+	busy    map[string]bool
+}
+
+func newHelperTable(fset *token.FileSet, pkg string, files []*ast.File, readers map[string]bool, listed map[string]string) *helperTable {
+	h := &helperTable{fset: fset, pkg: pkg, decls: map[string]*ast.FuncDecl{}, readers: readers, memo: map[string]*helperSummary{}, busy: map[string]bool{}}
+	dup := map[string]bool{}
+	for _, f := range files {
+		for _, d := range f.Decls {
+			fd, ok := d.(*ast.FuncDecl)
+			if !ok || fd.Body == nil || ast.IsExported(fd.Name.Name) {
+				continue
+			}
+			if _, isListed := listed[funcName(fd)]; isListed {
+				continue
+			}
+			if _, seen := h.decls[fd.Name.Name]; seen {
+				dup[fd.Name.Name] = true
+			}
+			h.decls[fd.Name.Name] = fd
+		}
+	}
+	for n := range dup {
+		delete(h.decls, n)
+	}
+	return h
+}
+
+// paramIndex lists the non-scalar parameters of fd: receiver first (index -1), then the parameters by position
+func helperParams(fd *ast.FuncDecl) []int {
+	var out []int
+	if fd.Recv != nil && len(fd.Recv.List) == 1 && !isScalarType(fd.Recv.List[0].Type) {
+		out = append(out, -1)
+	}
+	i := 0
+	for _, f := range fd.Type.Params.List {
+		k := len(f.Names)
+		if k == 0 {
+			k = 1
+		}
+		for j := 0; j < k; j++ {
+			if !isScalarType(f.Type) {
+				out = append(out, i)
+			}
+			i++
+		}
+	}
+	return out
+}
+
+func (h *helperTable) summary(short string) *helperSummary {
+	if h == nil {
+		return nil
+	}
+	fd, ok := h.decls[short]
+	if !ok {
+		return nil
+	}
+	if s, ok := h.memo[short]; ok {
+		return s
+	}
+	if h.busy[short] {
+		return nil // recursion among helpers: the call stays unknown
+	}
+	h.busy[short] = true
+	defer delete(h.busy, short)
+	sum := &helperSummary{writes: map[int]bool{}, alias: map[int]bool{}, unknown: map[int][]string{}}
+	for _, idx := range helperParams(fd) {
+		idx := idx
+		e := analyseFuncFiltered(h.fset, h.pkg, fd, "helper", h.readers, h, func(i int) bool { return i == idx })
+		sum.writes[idx] = len(e.writes) > 0
+		sum.alias[idx] = e.alias
+		sum.unknown[idx] = e.unknown
+	}
+	h.memo[short] = sum
+	return sum
+}
+
+// callArgs pairs the caller-visible arguments of a call with the callee's parameter indices (-1 = receiver)
+func (a *fnAnalysis) sharedArgIndices(x *ast.CallExpr) []int {
+	var out []int
+	if sel, ok := x.Fun.(*ast.SelectorExpr); ok && a.sharedExpr(sel.X) {
+		out = append(out, -1)
+	}
+	for i, arg := range x.Args {
+		if a.sharedExpr(arg) {
+			out = append(out, i)
+		}
+	}
+	return out
+}
+
+func shortName(name string) string {
+	if i := strings.LastIndex(name, "."); i >= 0 {
+		return name[i+1:]
+	}
+	return name
 }
 
 func (a *fnAnalysis) sharedExpr(e ast.Expr) bool {
@@ -180,6 +296,14 @@ func (a *fnAnalysis) sharedExpr(e ast.Expr) bool {
 		}
 		if aliasByDesign(name) {
 			return true
+		}
+		if sum := a.helpers.summary(shortName(name)); sum != nil {
+			for _, i := range a.sharedArgIndices(x) {
+				if sum.alias[i] {
+					return true
+				}
+			}
+			return false
 		}
 		// a conversion T(x): Fun is a type (array type, or a capitalised selector/ident that is not a known function)
 		if _, ok := x.Fun.(*ast.ArrayType); ok {
@@ -323,6 +447,17 @@ func (a *fnAnalysis) scan(body *ast.BlockStmt, results []string) {
 			if a.readers[short] || a.readers[name] {
 				return true
 			}
+			if sum := a.helpers.summary(short); sum != nil {
+				for _, i := range a.sharedArgIndices(s) {
+					if sum.writes[i] {
+						a.eff.writes = append(a.eff.writes, fmt.Sprintf("%s %s writes through its argument %d", a.pos(s), name, i))
+					}
+					for _, u := range sum.unknown[i] {
+						a.eff.unknown = append(a.eff.unknown, a.pos(s)+" "+name+" -> "+u)
+					}
+				}
+				return true
+			}
 			a.eff.unknown = append(a.eff.unknown, a.pos(s)+" "+name)
 		case *ast.ReturnStmt:
 			for i, r := range s.Results {
@@ -348,14 +483,30 @@ func (a *fnAnalysis) scan(body *ast.BlockStmt, results []string) {
 	})
 }
 
-func analyseFunc(fset *token.FileSet, pkg string, fd *ast.FuncDecl, role string, readers map[string]bool) *effect {
+func analyseFunc(fset *token.FileSet, pkg string, fd *ast.FuncDecl, role string, readers map[string]bool, helpers *helperTable) *effect {
+	return analyseFuncFiltered(fset, pkg, fd, role, readers, helpers, nil)
+}
+
+// only (when not nil) selects the parameters that are caller-visible (-1 = the receiver, then by position)
+func analyseFuncFiltered(fset *token.FileSet, pkg string, fd *ast.FuncDecl, role string, readers map[string]bool, helpers *helperTable, only func(int) bool) *effect {
 	eff := &effect{name: pkg + "." + funcName(fd), role: role}
-	a := &fnAnalysis{shared: map[string]bool{}, writer: map[string]bool{}, readers: readers, eff: eff, fset: fset}
-	addParams := func(fl *ast.FieldList) {
+	a := &fnAnalysis{shared: map[string]bool{}, writer: map[string]bool{}, readers: readers, eff: eff, fset: fset, helpers: helpers}
+	pidx := 0
+	addParams := func(fl *ast.FieldList, isRecv bool) {
 		if fl == nil {
 			return
 		}
 		for _, f := range fl.List {
+			k := len(f.Names)
+			if k == 0 {
+				k = 1
+			}
+			first := pidx
+			if isRecv {
+				first = -1
+			} else {
+				pidx += k
+			}
 			if sel, ok := f.Type.(*ast.SelectorExpr); ok && sel.Sel.Name == "Writer" {
 				for _, n := range f.Names {
 					a.writer[n.Name] = true
@@ -365,16 +516,23 @@ func analyseFunc(fset *token.FileSet, pkg string, fd *ast.FuncDecl, role string,
 			if isScalarType(f.Type) {
 				continue
 			}
-			for _, n := range f.Names {
+			for j, n := range f.Names {
 				if fd.Name.Name == "encodeTo" && n.Name == "b" {
 					continue // the destination buffer handed in by MarshalBinary
+				}
+				idx := first
+				if !isRecv {
+					idx = first + j
+				}
+				if only != nil && !only(idx) {
+					continue
 				}
 				a.shared[n.Name] = true
 			}
 		}
 	}
-	addParams(fd.Recv)
-	addParams(fd.Type.Params)
+	addParams(fd.Recv, true)
+	addParams(fd.Type.Params, false)
 	// local sinks: var b bytes.Buffer
 	ast.Inspect(fd.Body, func(n ast.Node) bool {
 		if vs, ok := n.(*ast.ValueSpec); ok {
@@ -447,6 +605,7 @@ func collectEffects(repo string) ([]*effect, error) {
 	if err != nil {
 		return nil, err
 	}
+	var helpers *helperTable
 	readers := map[string]bool{}
 	for k := range coreReaders {
 		readers[k] = true
@@ -454,11 +613,12 @@ func collectEffects(repo string) ([]*effect, error) {
 			readers[k[i+1:]] = true
 		}
 	}
+	helpers = newHelperTable(fset, "radius", files, readers, coreReaders)
 	for _, f := range files {
 		for _, d := range f.Decls {
 			if fd, ok := d.(*ast.FuncDecl); ok && fd.Body != nil {
 				if role, ok := coreReaders[funcName(fd)]; ok {
-					out = append(out, analyseFunc(fset, "radius", fd, role, readers))
+					out = append(out, analyseFunc(fset, "radius", fd, role, readers, helpers))
 				}
 			}
 		}
@@ -482,11 +642,12 @@ func collectEffects(repo string) ([]*effect, error) {
 	for k := range readers {
 		dreaders[k] = true
 	}
+	helpers = newHelperTable(fset, "debug", files, dreaders, debugReaders)
 	for _, f := range files {
 		for _, d := range f.Decls {
 			if fd, ok := d.(*ast.FuncDecl); ok && fd.Body != nil {
 				if role, ok := debugReaders[funcName(fd)]; ok {
-					out = append(out, analyseFunc(fset, "debug", fd, role, dreaders))
+					out = append(out, analyseFunc(fset, "debug", fd, role, dreaders, helpers))
 				}
 			}
 		}
@@ -518,7 +679,7 @@ func collectEffects(repo string) ([]*effect, error) {
 		for _, d := range f.Decls {
 			if fd, ok := d.(*ast.FuncDecl); ok && fd.Body != nil {
 				if role := generatedRole(funcName(fd)); role != "" {
-					out = append(out, analyseFunc(fset, f.Name.Name, fd, role, greaders))
+					out = append(out, analyseFunc(fset, f.Name.Name, fd, role, greaders, nil))
 				}
 			}
 		}
